@@ -1047,10 +1047,12 @@ class GroupCoordinator(BaseCoordinator):
                 (tp.partition, offset.offset, offset.metadata),
             )
 
+        req_generation = self.generation
+        req_member_id = self.member_id
         request = OffsetCommitRequest(
             self.group_id,
-            self.generation,
-            self.member_id,
+            req_generation,
+            req_member_id,
             OffsetCommitRequest.DEFAULT_RETENTION_TIME,
             list(offset_data.items()),
         )
@@ -1133,8 +1135,14 @@ class GroupCoordinator(BaseCoordinator):
                     )
                     if error_type is Errors.RebalanceInProgressError:
                         self.request_rejoin()
-                    else:
+                    elif (
+                        self.generation == req_generation
+                        and self.member_id == req_member_id
+                    ):
                         self.reset_generation()
+                    # Otherwise a rejoin completed while the request was in
+                    # flight: the error is about the identity we had before
+                    # and must not wipe the new one.
                     errored[tp] = error
 
                 else:
